@@ -191,3 +191,4 @@ func check(c Case) (out ev.Outcome) {
 
 func TestProp(t *testing.T)   { ev.Prop(t, false, genCase, check) }
 func TestReplay(t *testing.T) { ev.Replay(t, check) }
+func FuzzC08(f *testing.F)    { ev.FuzzProp(f, false, genCase, check) }
